@@ -12,7 +12,7 @@
    show that the hypotheses never exclude a state or a store answer. *)
 From Coq Require Import List NArith ZArith Bool Lia.
 From Verif Require Import Locks.Model Locks.ProofsBase Locks.ProofsInv Locks.ProofsCommit Locks.ProofsLock
-  Locks.ProofsLockAgg Locks.ProofsLockAll Locks.ProofsMain Locks.ProofsKA Locks.ProofsSched Locks.ProofsPrim Locks.ProofsEarly Locks.ProofsHeld Locks.ProofsHeldLock.
+  Locks.ProofsLockAgg Locks.ProofsLockAll Locks.ProofsMain Locks.ProofsKA Locks.ProofsSched Locks.ProofsPrim Locks.ProofsEarly Locks.ProofsHeld Locks.Contract Locks.ProofsHeldLock.
 Import ListNotations.
 Open Scope N_scope.
 
@@ -512,6 +512,22 @@ Theorem C06_tracked_keys_hold_locks :
 Proof. exact tracked_keys_hold_locks. Qed.
 Print Assumptions C06_tracked_keys_hold_locks.
 
+(* the form the check uses: the model driver evaluates the executable contract [wf_run_heldb] (Contract.v) along every
+   replayed program; where it holds, the lock set of the model at a quiescent point contains every tracked key, and that
+   lock set is compared with the store's (audit steps) *)
+Theorem C06_tracked_keys_hold_locks_checked :
+  forall evs : list ev, wf_run (init true) evs -> wf_run_heldb false (init true) evs = true ->
+  let s := run (init true) evs in
+  valid s = true ->
+  forall k, (In k (flags s) \/ in_cur s k = true) ->
+  exists l, In (k, l) (store s) /\ forall t, In t (tasks s) -> releases t (k, l) = false.
+Proof.
+  intros evs Hw Hb s Hv k Hk. apply (tracked_keys_hold_locks evs); auto.
+  - apply wf_run_heldb_sound; auto.
+  - tauto.
+Qed.
+Print Assumptions C06_tracked_keys_hold_locks_checked.
+
 Ltac held_solve :=
   vm_compute; repeat split; intros; try discriminate;
   repeat match goal with
@@ -536,6 +552,12 @@ Example C06_tracked_keys_hold_locks_run :
   let s := run (init true) held_run in
   valid s = true /\ flags s = [1; 2; 3; 7; 5] /\ map fst (store s) = [7; 5; 3; 1; 2] /\ tasks s = [].
 Proof. split; [held_solve|]. vm_compute. auto. Qed.
+Example C06_tracked_keys_contract_checker :
+  wf_run_heldb false (init true) held_run = true /\
+  wf_run_heldb false (init true) [ELock [1; 2] false false false 10 (fail_lock [1] FNoWait); ELock [1] false false false 10 (ok_lock [1])] = false /\
+  wf_run_heldb false (init true) [ELock [1] false false false 10 (ok_lock [])] = false /\
+  wf_run_heldb false (init true) skip_after_failed_relock = false.
+Proof. vm_compute. auto. Qed.
 
 (* each extra clause matters (all three runs satisfy [wf_run]): a retry with the SAME for-update ts loses its lock to the
    late rollback of the failed call; a store that acknowledges without locking; (the third clause:
